@@ -134,9 +134,9 @@ P("C19",
        "set then passed to placeGlobal/legalize/placeDetailed on a small circuit (must throw before any callback, "
        "circuit unchanged); every vector setter with a wrong length; addNet/setNets with inconsistent lengths or "
        "out-of-range cells. non-trivial = the input violates a documented range; distinct = hash of the violating "
-       "input. Exhaustive part: efforts -16..32, every field x 4 probes x efforts {1,5,9}, setters x lengths "
+       "input. Exhaustive part: efforts -16..32, every field x 8 probes (at the bounds and far from them: 0, -1, +-1e9) x efforts {1,5,9}, setters x lengths "
        "{0,n-1,n+1,2n} x n=1..6, net defects x positions x 6 out-of-range values.",
-  assumptions=["probes sit at bound +- 1e-3*max(1,|bound|) (half/double for bounds below 1e-3), never exactly on a real-valued bound",
+  assumptions=["boundary probes sit at bound +- 1e-3*max(1,|bound|) (half/double for bounds below 1e-3), never exactly on a real-valued bound; NaN is not probed (the parameter check does not reject it)",
                "sub-parameter constructors whose effort argument is unused may accept any effort; they must not invoke UB"])
 
 
@@ -399,7 +399,7 @@ P("C20",
        "rectangles and row orientations must be reproduced, and an independent Python reference HPWL must equal the C++ value "
        "before and after the round trip. non-trivial = a pin with an asymmetric offset on a non-N cell, or a non-N row; "
        "distinct = hash of the case. Exhaustive part ('programs'): every py::enum_ value, def_readwrite, def_property and "
-       ".def in module.cpp is parsed and must name the C++ entity of the same name in coloquinte.hpp.",
+       ".def in module.cpp is parsed and must name the C++ entity of the same name in coloquinte.hpp. The name handed to exportIspd is drawn from names with and without dots in the last component (rt, rt.placed, design.v2, a.b.c, ...), and in half of the cases another circuit is first exported under the stem of that name into the same directory.",
   assumptions=["the compiled Python module cannot be built here (empty pybind11 submodule): the reader runs against a stand-in, as the property's observation point says",
                "sizes below 1e5 so that the default stream precision of the writer is exact"])
 
